@@ -36,7 +36,7 @@ m = {
         {'name': 'h1', 'path': 'harness/h1/', 'serves_properties': [p for p in sorted(CLAIMED) if CLAIMED[p][5] == 'coq+h1'], 'kind_free_text': 'registry-level C++ driver running the real compiler<Policy> and the real method<>::resolve / fn on run-time registries, under ASan/UBSan; compared line by line with the extracted model and judged by the extracted specification'},
     ],
     'checks': [],
-    'notes': 'Machine-checked proof in Coq 8.16.1 over a Gallina model tied to /repo on every run in two ways: parts of the code (static_list, the ordering of definitions, the call-time walk, the hash search) are translated from the C++ text by translators/ and proved equal to the model; everything is also run differentially (extracted model vs real code on the same inputs); constants, facet lists and the access lists of the compiled call path are translated too. See DESIGN.md (13.7). Known findings: known_findings.txt.',
+    'notes': 'Machine-checked proof in Coq 8.16.1 over a Gallina model tied to /repo on every run in two ways: twenty-one pieces of the code (static_list, the ordering of definitions, the call-time walk, the hash search, the virtual_ptr constructor, the error stubs, v-table pointer publication, the registration constructors, the decoder and the encoder loops, every stage of update - augment_classes, augment_methods, assign_slots, the grouping and the table builder, install_gv, the report arithmetic, the order of the phases -, the deferred-id resolver, the writer of forward declarations) are translated from the C++ text by translators/ on every run and proved equal to the model, stage theorems chained to the end-to-end theorem (Properties_update_source.v); everything is also run differentially (extracted model vs real code on the same inputs); constants, facet lists and the access lists of the compiled call path are translated too. See DESIGN.md (13.7). Known findings: known_findings.txt.',
     'not_applicable': [],
 }
 for p in props:
